@@ -92,6 +92,10 @@ var (
 	tBool  = &ty{k: "bool"}
 	tByte  = &ty{k: "byte"}
 	tCfg   = &ty{k: "cfg"}
+	tErr   = &ty{k: "err"}     // Go error -> GoIO.Err
+	tScan  = &ty{k: "scanner"} // *bufio.Scanner -> GoIO.Scanner
+	tFile  = &ty{k: "file"}    // *os.File -> GoIO.File
+	tUnit  = &ty{k: "unit"}    // no result
 	tBad   = &ty{k: "?"}
 )
 
@@ -114,6 +118,16 @@ func (t *ty) lean() string {
 		return "UInt8"
 	case "cfg":
 		return "GoSnaps.Cfg"
+	case "err":
+		return "GoSnaps.GoIO.Err"
+	case "scanner":
+		return "GoSnaps.GoIO.Scanner"
+	case "file":
+		return "GoSnaps.GoIO.File"
+	case "unit":
+		return "Unit"
+	case "fs":
+		return "GoSnaps.FS"
 	case "pair":
 		return "(" + t.a.lean() + " × " + t.b.lean() + ")"
 	case "func":
@@ -151,6 +165,9 @@ type funcSpec struct {
 	extra   []param          // leading parameters of the Lean definition
 	externs map[string]param // printed Go expression (variable, selector, or call with its exact arguments) -> parameter
 	extFns  map[string]param // callee -> function parameter
+	out     string           // generated file: "" = Funcs.lean, "IO" = FuncsIO.lean
+	fx      string           // "" pure; "ro" reads the file system (parameters io, fs); "rw" also returns the new fs
+	inout   []string         // pointer parameters whose final value is returned (after fs, before the results)
 }
 
 var funcSpecs = []funcSpec{
@@ -173,6 +190,14 @@ var funcSpecs = []funcSpec{
 	{pkg: "snaps", name: "splitNewlines", sig: "s:string->[]string"},
 	{pkg: "snaps", name: "intPadding", sig: "inserted:int,deleted:int->string,string"},
 	{pkg: "difflib", name: "FormatRangeUnified", sig: "start:int,stop:int->string"},
+	// effectful functions (Generated/FuncsIO.lean)
+	{pkg: "snaps", name: "getPrevSnapshot", sig: "testID:string,snapPath:string->string,int,error", out: "IO", fx: "ro"},
+	{pkg: "snaps", name: "removeSnapshot", sig: "s:*bufio.Scanner->", out: "IO", inout: []string{"s"}},
+	{pkg: "snaps", name: "overwriteFile", sig: "f:*os.File,b:[]byte->error", out: "IO", fx: "rw", inout: []string{"f"}},
+	{pkg: "snaps", name: "addNewSnapshot", sig: "testID:string,snapshot:string,snapPath:string->error", out: "IO", fx: "rw"},
+	{pkg: "snaps", name: "updateSnapshot", sig: "testID:string,snapshot:string,snapPath:string->error", out: "IO", fx: "rw"},
+	{pkg: "snaps", name: "upsertStandaloneSnapshot", sig: "snapshot:string,snapPath:string->error", out: "IO", fx: "rw"},
+	{pkg: "snaps", name: "getPrevStandaloneSnapshot", sig: "snapPath:string->string,error", out: "IO", fx: "ro"},
 }
 
 // ---------------------------------------------------------------------------------------------
@@ -208,9 +233,18 @@ var libTable = map[string]libFn{
 type doneFn struct {
 	spec    *funcSpec
 	params  []*ty
-	res     *ty
+	pnames  []string
+	res     *ty   // the Lean result type (state prefix and Go results)
+	rets    []*ty // the Go results
 	partial bool
 	text    string
+}
+
+func (d *doneFn) ns() string {
+	if d.spec.out == "IO" {
+		return "GoSnaps.Generated.FuncsIO."
+	}
+	return "GoSnaps.Generated.Funcs."
 }
 
 type loopCtx struct {
@@ -223,6 +257,10 @@ type ftr struct {
 	muts    map[string]bool
 	idxAsg  map[string]bool // variables that are index-assigned somewhere in the function
 	env     []map[string]*ty
+	ren     []map[string]string // Go name -> Lean name where they differ (if-init variables)
+	rets    []*ty               // the Go result types
+	builder map[string]bool     // locals that are strings.Builder / bytes.Buffer (modelled as their content)
+	fsMut   bool                // the function threads the file system (`fs`)
 	sp      *funcSpec
 	funcs   map[string]*doneFn // already translated functions, key pkg+"."+name
 	partial bool
@@ -244,9 +282,32 @@ func (t *ftr) fail(f string, a ...any) ex {
 	return ex{"sorry", tBad, false}
 }
 
-func (t *ftr) push()                 { t.env = append(t.env, map[string]*ty{}) }
-func (t *ftr) pop()                  { t.env = t.env[:len(t.env)-1] }
-func (t *ftr) bind(n string, ty *ty) { t.env[len(t.env)-1][n] = ty }
+func (t *ftr) push() {
+	t.env = append(t.env, map[string]*ty{})
+	t.ren = append(t.ren, map[string]string{})
+}
+func (t *ftr) pop() {
+	t.env = t.env[:len(t.env)-1]
+	t.ren = t.ren[:len(t.ren)-1]
+}
+func (t *ftr) bind(n string, ty *ty) {
+	t.env[len(t.env)-1][n] = ty
+	delete(t.ren[len(t.ren)-1], n)
+}
+
+// ln: the Lean name of the Go variable n (differs for variables of an `if` init statement, which
+// are renamed so that they cannot capture a later use of an outer variable of the same name)
+func (t *ftr) ln(n string) string {
+	for i := len(t.env) - 1; i >= 0; i-- {
+		if _, ok := t.env[i][n]; ok {
+			if r, ok := t.ren[i][n]; ok {
+				return r
+			}
+			return leanIdent(n)
+		}
+	}
+	return leanIdent(n)
+}
 func (t *ftr) lookup(n string) *ty {
 	for i := len(t.env) - 1; i >= 0; i-- {
 		if ty, ok := t.env[i][n]; ok {
@@ -299,6 +360,8 @@ func goType(e ast.Expr) *ty {
 			return tBool
 		case "byte":
 			return tByte
+		case "error":
+			return tErr
 		}
 	case *ast.ArrayType:
 		if e.Len == nil {
@@ -314,6 +377,14 @@ func goType(e ast.Expr) *ty {
 	case *ast.StarExpr:
 		if id, ok := e.X.(*ast.Ident); ok && id.Name == "Config" {
 			return tCfg
+		}
+		if sel, ok := e.X.(*ast.SelectorExpr); ok {
+			switch selName(sel) {
+			case "bufio.Scanner":
+				return tScan
+			case "os.File":
+				return tFile
+			}
 		}
 	}
 	return nil
@@ -344,13 +415,19 @@ func (t *ftr) expr(e ast.Expr) ex { return t.exprH(e, nil) }
 
 // exprH translates e; hint is the type an untyped constant should take.
 func (t *ftr) exprH(e ast.Expr, hint *ty) ex {
+	if x, ok := t.ioExpr(e, hint); ok {
+		if t.err != nil {
+			return ex{"sorry", tBad, false}
+		}
+		return x
+	}
 	switch e := e.(type) {
 	case *ast.ParenExpr:
 		x := t.exprH(e.X, hint)
 		return ex{"(" + x.s + ")", x.t, x.p}
 	case *ast.Ident:
 		if ty := t.lookup(e.Name); ty != nil {
-			return ex{leanIdent(e.Name), ty, false}
+			return ex{t.ln(e.Name), ty, false}
 		}
 		if p, ok := t.sp.externs[e.Name]; ok {
 			return ex{p.name, p.t, false}
@@ -371,7 +448,7 @@ func (t *ftr) exprH(e ast.Expr, hint *ty) ex {
 			if ty := t.lookup(id.Name); ty != nil && ty.k == "cfg" {
 				switch e.Sel.Name {
 				case "filename", "extension", "snapsDir":
-					return ex{leanIdent(id.Name) + "." + e.Sel.Name, tText, false}
+					return ex{t.ln(id.Name) + "." + e.Sel.Name, tText, false}
 				}
 			}
 		}
@@ -614,7 +691,7 @@ func (t *ftr) call(e *ast.CallExpr) ex {
 			if !ok {
 				return ex{"sorry", tBad, false}
 			}
-			return ex{"(" + leanIdent(id.Name) + " " + strings.Join(a, " ") + ")", ty.res, p}
+			return ex{"(" + t.ln(id.Name) + " " + strings.Join(a, " ") + ")", ty.res, p}
 		}
 		switch id.Name {
 		case "string":
@@ -653,7 +730,10 @@ func (t *ftr) call(e *ast.CallExpr) ex {
 			if !ok {
 				return ex{"sorry", tBad, false}
 			}
-			s := "GoSnaps.Generated.Funcs." + id.Name + " " + strings.Join(append(lead, a...), " ")
+			if d.spec.fx != "" || len(d.spec.inout) > 0 {
+				return t.fail("the effectful function %s is called inside an expression", id.Name)
+			}
+			s := d.ns() + id.Name + " " + strings.Join(append(lead, a...), " ")
 			if d.partial {
 				t.partial = true
 				return ex{"(← " + s + ")", d.res, true}
@@ -730,6 +810,7 @@ func (t *ftr) call(e *ast.CallExpr) ex {
 // assignedIn: names assigned (whole) and names index-assigned in the statements
 func assignedIn(n ast.Node) (whole, indexed map[string]bool) {
 	whole, indexed = map[string]bool{}, map[string]bool{}
+	defined := map[string]bool{}
 	mark := func(l ast.Expr) {
 		switch l := l.(type) {
 		case *ast.Ident:
@@ -748,6 +829,12 @@ func assignedIn(n ast.Node) (whole, indexed map[string]bool) {
 		switch s := n.(type) {
 		case *ast.AssignStmt:
 			for _, l := range s.Lhs {
+				if id, ok := l.(*ast.Ident); ok && s.Tok == token.DEFINE {
+					if defined[id.Name] {
+						whole[id.Name+"#2"] = true
+					}
+					defined[id.Name] = true
+				}
 				mark(l)
 			}
 		case *ast.IncDecStmt:
@@ -785,55 +872,87 @@ func (t *ftr) define(b *strings.Builder, ind, name string, x ex) {
 	if name == "_" {
 		return
 	}
-	if t.muts[name] {
-		fmt.Fprintf(b, "%slet mut %s := %s\n", ind, leanIdent(name), x.s)
+	t.defineAs(b, ind, name, leanIdent(name), x)
+}
+
+func (t *ftr) defineAs(b *strings.Builder, ind, name, lean string, x ex) {
+	if t.muts[name] || x.t.k == "file" || x.t.k == "scanner" {
+		fmt.Fprintf(b, "%slet mut %s := %s\n", ind, lean, x.s)
 	} else {
-		fmt.Fprintf(b, "%slet %s := %s\n", ind, leanIdent(name), x.s)
+		fmt.Fprintf(b, "%slet %s := %s\n", ind, lean, x.s)
 	}
 	t.bind(name, x.t)
+	if lean != leanIdent(name) {
+		t.ren[len(t.ren)-1][name] = lean
+	}
 }
 
 func (t *ftr) assign(b *strings.Builder, ind string, s *ast.AssignStmt) {
-	// multi-value: a, b := f(x)
-	if len(s.Lhs) == 2 && len(s.Rhs) == 1 && (s.Tok == token.DEFINE || s.Tok == token.ASSIGN) {
-		x := t.expr(s.Rhs[0])
+	// an effectful call as the whole right-hand side: emit it first, then use its results
+	var pre *ex
+	if len(s.Rhs) == 1 {
+		if fr, ok := t.fxCall(s.Rhs[0]); ok {
+			if fr == nil || t.err != nil {
+				b.WriteString(ind + "sorry\n")
+				return
+			}
+			x := t.emitFx(b, ind, fr)
+			pre = &x
+		}
+	}
+	// multi-value: a, b[, c] := f(x)
+	if len(s.Lhs) >= 2 && len(s.Rhs) == 1 && (s.Tok == token.DEFINE || s.Tok == token.ASSIGN) {
+		var x ex
+		if pre != nil {
+			x = *pre
+		} else {
+			x = t.expr(s.Rhs[0])
+		}
 		if t.err != nil {
 			b.WriteString(ind + "sorry\n")
 			return
 		}
-		if x.t.k != "pair" {
-			t.stmtFail(b, ind, "two-value assignment from %s", x.t.lean())
+		n := len(s.Lhs)
+		cts := comps(x.t, n)
+		if cts == nil {
+			t.stmtFail(b, ind, "%d-value assignment from %s", n, x.t.lean())
 			return
 		}
 		var names []string
 		for _, l := range s.Lhs {
 			id, ok := l.(*ast.Ident)
 			if !ok {
-				t.stmtFail(b, ind, "two-value assignment to %s", t.src(l))
+				t.stmtFail(b, ind, "multi-value assignment to %s", t.src(l))
 				return
 			}
 			names = append(names, id.Name)
 		}
 		val := x.s
-		if names[0] != "_" && names[1] != "_" {
+		used := 0
+		for _, nm := range names {
+			if nm != "_" {
+				used++
+			}
+		}
+		if used > 1 && pre == nil {
 			t.tmp++
 			val = fmt.Sprintf("r_%d", t.tmp)
 			fmt.Fprintf(b, "%slet %s := %s\n", ind, val, x.s)
 		}
-		for i, n := range names {
-			if n == "_" {
+		for i, nm := range names {
+			if nm == "_" {
 				continue
 			}
-			comp := ex{fmt.Sprintf("%s.%d", val, i+1), []*ty{x.t.a, x.t.b}[i], x.p}
-			if s.Tok == token.DEFINE && t.lookupLocal(n) == nil {
-				t.define(b, ind, n, comp)
+			comp := ex{proj(val, i, n), cts[i], x.p}
+			if s.Tok == token.DEFINE && t.lookupLocal(nm) == nil {
+				t.define(b, ind, nm, comp)
 			} else {
-				old := t.lookup(n)
+				old := t.lookup(nm)
 				if old == nil || !old.eq(comp.t) {
-					t.stmtFail(b, ind, "assignment to %s: unknown variable or type mismatch", n)
+					t.stmtFail(b, ind, "assignment to %s: unknown variable or type mismatch", nm)
 					return
 				}
-				fmt.Fprintf(b, "%s%s := %s\n", ind, leanIdent(n), comp.s)
+				fmt.Fprintf(b, "%s%s := %s\n", ind, t.ln(nm), comp.s)
 			}
 		}
 		return
@@ -881,7 +1000,7 @@ func (t *ftr) assign(b *strings.Builder, ind string, s *ast.AssignStmt) {
 			t.stmtFail(b, ind, "index assignment types: %s", t.src(s))
 			return
 		}
-		nm := leanIdent(id.Name)
+		nm := t.ln(id.Name)
 		val := v.s
 		switch s.Tok {
 		case token.ASSIGN:
@@ -916,7 +1035,15 @@ func (t *ftr) assign(b *strings.Builder, ind string, s *ast.AssignStmt) {
 		return
 	}
 	if s.Tok == token.DEFINE {
-		x := t.expr(s.Rhs[0])
+		var x ex
+		if pre != nil {
+			x = *pre
+		} else if cl, ok := s.Rhs[0].(*ast.CompositeLit); ok && t.isBuilderType(cl.Type) && len(cl.Elts) == 0 {
+			x = ex{"([] : List UInt8)", tText, false}
+			t.builder[name] = true
+		} else {
+			x = t.expr(s.Rhs[0])
+		}
 		if t.err != nil {
 			b.WriteString(ind + "sorry\n")
 			return
@@ -928,12 +1055,20 @@ func (t *ftr) assign(b *strings.Builder, ind string, s *ast.AssignStmt) {
 		t.define(b, ind, name, x)
 		return
 	}
+	if name == "_" && pre != nil {
+		return
+	}
 	old := t.lookup(name)
 	if old == nil {
 		t.stmtFail(b, ind, "assignment to %s, which is not a local variable", name)
 		return
 	}
-	x := t.exprH(s.Rhs[0], old)
+	var x ex
+	if pre != nil {
+		x = *pre
+	} else {
+		x = t.exprH(s.Rhs[0], old)
+	}
 	if t.err != nil {
 		b.WriteString(ind + "sorry\n")
 		return
@@ -942,7 +1077,7 @@ func (t *ftr) assign(b *strings.Builder, ind string, s *ast.AssignStmt) {
 		t.stmtFail(b, ind, "assignment to %s: %s := %s", name, old.lean(), x.t.lean())
 		return
 	}
-	nm := leanIdent(name)
+	nm := t.ln(name)
 	switch {
 	case s.Tok == token.ASSIGN:
 		fmt.Fprintf(b, "%s%s := %s\n", ind, nm, x.s)
@@ -1015,12 +1150,27 @@ func (t *ftr) funcLit(b *strings.Builder, ind, name string, fl *ast.FuncLit) {
 }
 
 func (t *ftr) block(list []ast.Stmt, ind string, res *ty) string {
+	s := t.block0(list, ind, res)
+	// a block that produced only comments needs a statement
+	for _, l := range strings.Split(s, "\n") {
+		l = strings.TrimSpace(l)
+		if l != "" && !strings.HasPrefix(l, "--") {
+			return s
+		}
+	}
+	return s + ind + "pure ()\n"
+}
+
+func (t *ftr) block0(list []ast.Stmt, ind string, res *ty) string {
 	var b strings.Builder
 	t.push()
 	defer t.pop()
 	for _, st := range list {
 		if t.err != nil {
 			break
+		}
+		if t.ioStmt(&b, ind, st, res) {
+			continue
 		}
 		switch s := st.(type) {
 		case *ast.AssignStmt:
@@ -1035,28 +1185,11 @@ func (t *ftr) block(list []ast.Stmt, ind string, res *ty) string {
 			if s.Tok == token.DEC {
 				op = " - "
 			}
-			fmt.Fprintf(&b, "%s%s := %s%s(1 : Int)\n", ind, leanIdent(id.Name), leanIdent(id.Name), op)
+			fmt.Fprintf(&b, "%s%s := %s%s(1 : Int)\n", ind, t.ln(id.Name), t.ln(id.Name), op)
 		case *ast.IfStmt:
 			b.WriteString(t.ifStmt(s, ind, res))
 		case *ast.ReturnStmt:
-			switch {
-			case res.k == "pair" && len(s.Results) == 2:
-				x, y := t.exprH(s.Results[0], res.a), t.exprH(s.Results[1], res.b)
-				if t.err == nil && !(x.t.eq(res.a) && y.t.eq(res.b)) {
-					t.stmtFail(&b, ind, "return types: %s", t.src(s))
-					continue
-				}
-				fmt.Fprintf(&b, "%sreturn (%s, %s)\n", ind, x.s, y.s)
-			case res.k != "pair" && len(s.Results) == 1:
-				x := t.exprH(s.Results[0], res)
-				if t.err == nil && !x.t.eq(res) {
-					t.stmtFail(&b, ind, "return type: %s", t.src(s))
-					continue
-				}
-				fmt.Fprintf(&b, "%sreturn %s\n", ind, x.s)
-			default:
-				t.stmtFail(&b, ind, "return arity: %s", t.src(s))
-			}
+			t.returnStmt(&b, ind, s)
 		case *ast.ForStmt:
 			b.WriteString(t.forStmt(s, ind, res))
 		case *ast.RangeStmt:
@@ -1074,11 +1207,111 @@ func (t *ftr) block(list []ast.Stmt, ind string, res *ty) string {
 	return b.String()
 }
 
+// retPrefix: the state every return carries in front of the Go results
+func (t *ftr) retPrefix() []string {
+	var pre []string
+	if t.sp.fx == "rw" {
+		pre = append(pre, "fs")
+	}
+	for _, n := range t.sp.inout {
+		pre = append(pre, t.ln(n))
+	}
+	return pre
+}
+
+func tupleText(parts []string) string {
+	switch len(parts) {
+	case 0:
+		return "()"
+	case 1:
+		return parts[0]
+	}
+	return "(" + strings.Join(parts, ", ") + ")"
+}
+
+func (t *ftr) returnStmt(b *strings.Builder, ind string, s *ast.ReturnStmt) {
+	parts := t.retPrefix()
+	// return f(x) with f effectful
+	if len(s.Results) == 1 {
+		if fr, ok := t.fxCall(s.Results[0]); ok {
+			if fr == nil || t.err != nil {
+				b.WriteString(ind + "sorry\n")
+				return
+			}
+			x := t.emitFx(b, ind, fr)
+			if !x.t.eq(nestedPair(t.rets)) {
+				t.stmtFail(b, ind, "return type: %s", t.src(s))
+				return
+			}
+			parts = t.retPrefix()
+			fmt.Fprintf(b, "%sreturn %s\n", ind, tupleText(append(parts, x.s)))
+			return
+		}
+	}
+	if len(s.Results) != len(t.rets) {
+		t.stmtFail(b, ind, "return arity: %s", t.src(s))
+		return
+	}
+	for i, r := range s.Results {
+		x := t.exprH(r, t.rets[i])
+		if t.err != nil {
+			b.WriteString(ind + "sorry\n")
+			return
+		}
+		if !x.t.eq(t.rets[i]) {
+			t.stmtFail(b, ind, "return types: %s", t.src(s))
+			return
+		}
+		parts = append(parts, x.s)
+	}
+	fmt.Fprintf(b, "%sreturn %s\n", ind, tupleText(parts))
+}
+
 func (t *ftr) ifStmt(s *ast.IfStmt, ind string, res *ty) string {
 	var b strings.Builder
 	if s.Init != nil {
-		t.stmtFail(&b, ind, "if with an init statement")
-		return b.String()
+		// if x := e; cond { … }: x is visible in the condition and both branches only.  It is renamed
+		// (x_k) so that it cannot capture a later use of an outer variable of the same name.
+		as, ok := s.Init.(*ast.AssignStmt)
+		if !ok || as.Tok != token.DEFINE || len(as.Rhs) != 1 {
+			t.stmtFail(&b, ind, "if with an init statement other than `x := e`")
+			return b.String()
+		}
+		t.push()
+		defer t.pop()
+		var x ex
+		if fr, ok := t.fxCall(as.Rhs[0]); ok {
+			if fr == nil || t.err != nil {
+				b.WriteString(ind + "sorry\n")
+				return b.String()
+			}
+			x = t.emitFx(&b, ind, fr)
+		} else {
+			x = t.expr(as.Rhs[0])
+		}
+		if t.err != nil {
+			b.WriteString(ind + "sorry\n")
+			return b.String()
+		}
+		n := len(as.Lhs)
+		cts := comps(x.t, n)
+		if cts == nil {
+			t.stmtFail(&b, ind, "if-init: %d-value definition from %s", n, x.t.lean())
+			return b.String()
+		}
+		val := x.s
+		for i, l := range as.Lhs {
+			id, ok := l.(*ast.Ident)
+			if !ok {
+				t.stmtFail(&b, ind, "if-init: definition of %s", t.src(l))
+				return b.String()
+			}
+			if id.Name == "_" {
+				continue
+			}
+			t.tmp++
+			t.defineAs(&b, ind, id.Name, fmt.Sprintf("%s_%d", leanIdent(id.Name), t.tmp), ex{proj(val, i, n), cts[i], x.p})
+		}
 	}
 	c := t.expr(s.Cond)
 	if t.err == nil && c.t.k != "bool" {
@@ -1277,7 +1510,7 @@ func sigText(t *ftr, fd *ast.FuncDecl) string {
 
 func translateFunc(pkg *pkgInfo, sp *funcSpec, consts map[string]bool, funcs map[string]*doneFn) *doneFn {
 	fd := pkg.fn(sp.name)
-	t := &ftr{pkg: pkg, consts: consts, muts: map[string]bool{}, sp: sp, funcs: funcs}
+	t := &ftr{pkg: pkg, consts: consts, muts: map[string]bool{}, sp: sp, funcs: funcs, builder: map[string]bool{}}
 	if fd.Recv != nil || fd.Type.TypeParams != nil {
 		ffail("funcs: %s: methods and generic functions are not supported", sp.name)
 	}
@@ -1286,10 +1519,18 @@ func translateFunc(pkg *pkgInfo, sp *funcSpec, consts map[string]bool, funcs map
 	}
 	t.push()
 	var binders []string
+	if sp.fx != "" {
+		binders = append(binders, "(io : GoSnaps.GoIO.IOFail)", "(fs : GoSnaps.FS)")
+	}
 	for _, p := range sp.extra {
 		binders = append(binders, "("+p.name+" : "+p.t.lean()+")")
 	}
+	isInout := map[string]bool{}
+	for _, n := range sp.inout {
+		isInout[n] = true
+	}
 	var pts []*ty
+	var pns []string
 	pnames := map[string]bool{}
 	for _, f := range fd.Type.Params.List {
 		pt := goType(f.Type)
@@ -1297,29 +1538,44 @@ func translateFunc(pkg *pkgInfo, sp *funcSpec, consts map[string]bool, funcs map
 			ffail("funcs: %s: unsupported parameter type %s", sp.name, t.src(f.Type))
 		}
 		for _, n := range f.Names {
+			if (pt.k == "scanner" || pt.k == "file") && !isInout[n.Name] {
+				ffail("funcs: %s: the pointer parameter %s must be declared in-out", sp.name, n.Name)
+			}
 			t.bind(n.Name, pt)
 			pnames[n.Name] = true
 			pts = append(pts, pt)
+			pns = append(pns, n.Name)
 			binders = append(binders, "("+leanIdent(n.Name)+" : "+pt.lean()+")")
 		}
 	}
-	var rts []*ty
-	for _, f := range fd.Type.Results.List {
-		rt := goType(f.Type)
-		if rt == nil {
-			ffail("funcs: %s: unsupported result type %s", sp.name, t.src(f.Type))
+	for _, n := range sp.inout {
+		if !pnames[n] {
+			ffail("funcs: %s has no parameter %s", sp.name, n)
 		}
-		rts = append(rts, rt)
 	}
-	var res *ty
-	switch len(rts) {
-	case 1:
-		res = rts[0]
-	case 2:
-		res = pairOf(rts[0], rts[1])
-	default:
-		ffail("funcs: %s: %d results", sp.name, len(rts))
+	var rts []*ty
+	if fd.Type.Results != nil {
+		for _, f := range fd.Type.Results.List {
+			rt := goType(f.Type)
+			if rt == nil {
+				ffail("funcs: %s: unsupported result type %s", sp.name, t.src(f.Type))
+			}
+			rts = append(rts, rt)
+		}
 	}
+	t.rets = rts
+	var all []*ty
+	if sp.fx == "rw" {
+		all = append(all, &ty{k: "fs"})
+	}
+	for _, n := range sp.inout {
+		all = append(all, t.lookup(n))
+	}
+	all = append(all, rts...)
+	if len(all) == 0 {
+		ffail("funcs: %s has neither results nor state to return", sp.name)
+	}
+	res := nestedPair(all)
 	whole, indexed := assignedIn(fd.Body)
 	for n := range indexed {
 		t.muts[n] = true
@@ -1334,6 +1590,14 @@ func translateFunc(pkg *pkgInfo, sp *funcSpec, consts map[string]bool, funcs map
 						t.muts[id.Name] = true
 					}
 				}
+			} else {
+				// `a, err := f()` re-assigns an `err` that already exists in the same scope; to stay on the
+				// safe side every name defined more than once in the function is mutable
+				for _, l := range s.Lhs {
+					if id, ok := l.(*ast.Ident); ok && whole[id.Name+"#2"] {
+						t.muts[id.Name] = true
+					}
+				}
 			}
 		case *ast.IncDecStmt:
 			if id, ok := s.X.(*ast.Ident); ok {
@@ -1342,20 +1606,32 @@ func translateFunc(pkg *pkgInfo, sp *funcSpec, consts map[string]bool, funcs map
 		}
 		return true
 	})
-	_ = whole
 	for n := range t.muts {
-		if pnames[n] {
+		if pnames[n] && !isInout[n] {
 			ffail("funcs: %s assigns its parameter %s", sp.name, n)
 		}
 	}
 	t.checkAliasing(fd, pnames)
-	// the last statement must be a return (every path of a Go function with results ends in one)
-	if n := len(fd.Body.List); n == 0 {
+	n := len(fd.Body.List)
+	if n == 0 {
 		ffail("funcs: %s has an empty body", sp.name)
-	} else if _, ok := fd.Body.List[n-1].(*ast.ReturnStmt); !ok {
+	}
+	_, endsInReturn := fd.Body.List[n-1].(*ast.ReturnStmt)
+	if len(rts) > 0 && !endsInReturn {
+		// every path of a Go function with results ends in a return
 		ffail("funcs: %s does not end with a return statement", sp.name)
 	}
-	body := t.block(fd.Body.List, "  ", res)
+	var pre strings.Builder
+	if sp.fx == "rw" {
+		pre.WriteString("  let mut fs := fs\n")
+	}
+	for _, nm := range sp.inout {
+		fmt.Fprintf(&pre, "  let mut %s := %s\n", leanIdent(nm), leanIdent(nm))
+	}
+	body := pre.String() + t.block(fd.Body.List, "  ", res)
+	if len(rts) == 0 && !endsInReturn {
+		body += "  return " + tupleText(t.retPrefix()) + "\n"
+	}
 	if t.err != nil {
 		ffail("funcs: %s uses a construct outside the translated subset: %v", sp.name, t.err)
 	}
@@ -1372,7 +1648,7 @@ func translateFunc(pkg *pkgInfo, sp *funcSpec, consts map[string]bool, funcs map
 		fmt.Fprintf(&b, "def %s %s : %s := Id.run do\n", sp.name, strings.Join(binders, " "), res.lean())
 	}
 	b.WriteString(body)
-	return &doneFn{spec: sp, params: pts, res: res, partial: t.partial, text: b.String()}
+	return &doneFn{spec: sp, params: pts, pnames: pns, res: res, rets: rts, partial: t.partial, text: b.String()}
 }
 
 // funcsErr: a function of the list could not be transliterated.  The failure is LOCAL: the function
@@ -1400,7 +1676,7 @@ func tryTranslate(pkg *pkgInfo, sp *funcSpec, consts map[string]bool, funcs map[
 	return translateFunc(pkg, sp, consts, funcs), ""
 }
 
-func extractFuncs(pkgs map[string]*pkgInfo, F *facts) string {
+func extractFuncs(pkgs map[string]*pkgInfo, F *facts) (string, string) {
 	snaps := pkgs["snaps"]
 	consts := map[string]bool{}
 	for name, v := range snaps.values {
@@ -1409,11 +1685,15 @@ func extractFuncs(pkgs map[string]*pkgInfo, F *facts) string {
 		}
 	}
 	funcs := map[string]*doneFn{}
-	var b strings.Builder
+	var b, bio strings.Builder
 	b.WriteString("-- GENERATED by tools/extract (funcs.go): statement-by-statement transliteration of Go functions into Lean\n")
 	b.WriteString("-- do-notation.  `Id.run do` = total function; `Option … := do` = `none` when the Go function panics.\n")
 	b.WriteString("-- Do not edit: regenerated from the current sources on every run.\n")
 	b.WriteString("import GoSnaps.Path\nimport GoSnaps.GoSem\nset_option linter.unusedVariables false\nnamespace GoSnaps.Generated.Funcs\n")
+	bio.WriteString("-- GENERATED by tools/extract (funcs.go, funcsio.go): transliteration of the effectful Go functions\n")
+	bio.WriteString("-- (file system, scanners, registries, Match* flows); run-time semantics: GoSnaps/GoIO.lean.\n")
+	bio.WriteString("-- Do not edit: regenerated from the current sources on every run.\n")
+	bio.WriteString("import GoSnaps.GoIO\nimport GoSnaps.Generated.Funcs\nset_option linter.unusedVariables false\nnamespace GoSnaps.Generated.FuncsIO\n")
 	F.Funcs = map[string]string{}
 	F.FuncsFailed = map[string]string{}
 	for i := range funcSpecs {
@@ -1423,17 +1703,22 @@ func extractFuncs(pkgs map[string]*pkgInfo, F *facts) string {
 		if sp.pkg != "snaps" {
 			c = map[string]bool{}
 		}
+		out := &b
+		if sp.out == "IO" {
+			out = &bio
+		}
 		d, reason := tryTranslate(pkg, sp, c, funcs)
 		if d == nil {
 			fmt.Fprintf(os.Stderr, "extract: %s NOT transliterated: %s\n", sp.name, reason)
-			b.WriteString("\n-- NOT TRANSLITERATED: " + sp.name + ": " + strings.ReplaceAll(reason, "\n", " ") + "\n")
+			out.WriteString("\n-- NOT TRANSLITERATED: " + sp.name + ": " + strings.ReplaceAll(reason, "\n", " ") + "\n")
 			F.FuncsFailed[sp.name] = reason
 			continue
 		}
 		funcs[sp.pkg+"."+sp.name] = d
-		b.WriteString("\n" + d.text)
+		out.WriteString("\n" + d.text)
 		F.Funcs[sp.name] = d.text
 	}
 	b.WriteString("\nend GoSnaps.Generated.Funcs\n")
-	return b.String()
+	bio.WriteString("\nend GoSnaps.Generated.FuncsIO\n")
+	return b.String(), bio.String()
 }
